@@ -116,3 +116,15 @@ def _dv_right(case, v):
     # Sweep, Dihedral and Taper take the root of a symmetric surface to be the LAST spanwise node (y0 = le[-1, 1], xp = [-span, 0]);
     # on a right-half mesh (root first) they act with the wrong sense / not at all.
     return case.get("kind") == "dv_halves" and case.get("dv") in ("sweep", "dihedral", "taper") and v["family"] == "dv_halves/mesh"
+
+
+# ---------------------------------------------------------------------------------------------- C03
+@predicate("fuel_vol_delta_mutates_input")
+def _fvd(case, v):
+    # WingboxFuelVolDelta.compute: fuel_weight = inputs["fuelburn"]; fuel_weight /= 2.0  -> halves its own input vector in place
+    if v["family"] == "guard/inputs_unmodified":
+        return "class=WingboxFuelVolDelta" in _tags(v)
+    # consequences of the same in-place edit: every re-execution without a fresh data transfer halves the fuel again
+    # (outputs after check_partials/check_totals) and the complex-step partial of fuel_vol_delta picks up a spurious term
+    key = v.get("detail", {}).get("key", "")
+    return "fuel_vol_delta" in key
